@@ -103,6 +103,15 @@ func c16Shapes() []c16Shape {
 	}
 	big.Shape.Blocks[1].Entries = es
 	out = append(out, big)
+	// objects whose section payload (CID + data) sits exactly on and around the boundaries where the
+	// section-length varint grows (127/128/129, 16383/16384/16385, 16511/16512), one per block
+	edge := mk("8-blocks/section-payloads-at-varint-boundaries", 17, 8, 0, 0, false)
+	for b, target := range []int{127, 128, 129, 16383, 16384, 16385, 16511, 16512} {
+		if pad, ok := vkPadForTxPayload(target); ok {
+			edge.Shape.Blocks[b].Entries = [][]cargen.TxShape{{{Accounts: []int{0}, TxPad: pad, NoMeta: true}, {Accounts: []int{1}}}}
+		}
+	}
+	out = append(out, edge)
 	if vkit.Thorough() {
 		out = append(out,
 			mk("4-blocks/from-3", 2, 4, 3, 0, false),
